@@ -213,11 +213,12 @@ PROPS = {
     "C20": {
         "lean_modules": ["WP.Props.C20"],
         "lean_support": [],
-        "families": [("sdkmath", 100000, 5000000), ("sdkticks", 0, 0), ("hist", 12000, 300000)],
+        "families": [("sdkmath", 100000, 5000000), ("sdkticks", 0, 0), ("sdkaf", 60000, 3000000), ("hist", 12000, 300000)],
         "history": True,
         "rule": "sdkmath: the REAL rust-sdk/core crate (linked as is; only ethnum replaced by the vendored stand-in) against the program functions on boundary-biased inputs: token A / B for liquidity, next price from A / B, "
                 "token estimates for liquidity over tick ranges incl. both ends of the tick range with huge liquidity, price -> tick, slippage-adjusted min / max (safe-side and exactness oracle); sdkticks: EVERY tick: "
-                "tick -> price and price -> tick at and one below each tick price; hist: every swap of every pool history (static and adaptive-fee pools, explicit price limits, partial fills) is also computed by the SDK's "
+                "tick -> price and price -> tick at and one below each tick price; sdkaf: the SDK's adaptive-fee variable rules (update_reference / update_volatility_accumulator / update_major_swap_timestamp of AdaptiveFeeVariablesFacade) "
+                "against the program's AdaptiveFeeVariables methods on arbitrary stored variables over every elapsed-time class around filter / decay / 3600 s measured from BOTH stored timestamps; hist: every swap of every pool history (static and adaptive-fee pools, explicit price limits, partial fills) is also computed by the SDK's "
                 "compute_swap on facades of the same pre-swap state and compared (amount A, amount B, total fee); where the program refuses, an SDK number is accepted only for PartialFillError / running off the arrays; "
                 "non-trivial = both sides return a value",
         "trusted": ["ethnum is not in the offline cargo cache: harness/vendor/ethnum is a 500-line stand-in implementing ethnum's documented semantics (release: wrapping arithmetic, checked_shl rejects only shifts >= 256); the two repaired defects were demonstrated with it",
